@@ -56,6 +56,7 @@ class Side:
         cfg = dict(cfg); cfg["renderer"] = "ast"
         self.md = configs.make(cfg)
         self.plugins = list(cfg.get("plugins") or [])
+        self.directives = cfg.get("directives")
 
     def real(self, kind, s):
         try:
@@ -103,7 +104,7 @@ BLOCK_PLUGINS = ("table", "footnotes", "task_lists", "def_list", "abbr")
 INLINE_PLUGINS = ("strikethrough", "mark", "insert", "superscript", "subscript", "url", "math", "ruby", "spoiler", "speedup")
 
 
-def inputs(kind, rng, n, maxlen, plugins=()):
+def inputs(kind, rng, n, maxlen, plugins=(), directives=None):
     """`plugins`: plugins of the configuration.  With block plugins half of the block / doc inputs come from gen.md_plugins;
     with plugins of INLINE_PLUGINS (inline rules, block math, spoiler quotes, speedup) half of the inline inputs use gen.PLUGIN_TOKS
     and a share of the block / doc inputs comes from gen.md_inline_plugins.  Without plugins the stream is the stock one."""
@@ -117,6 +118,9 @@ def inputs(kind, rng, n, maxlen, plugins=()):
                 s = inline_text(rng, both if rng.random() < 0.5 else gen.PLUGIN_TOKS)
             else:
                 s = inline_text(rng)
+        elif directives and rng.random() < 0.5:
+            # configurations with a directive syntax: half of the block / doc inputs are directives (gen.md_directives)
+            s = gen.md_directives(rng, directives)
         elif inl and rng.random() < (0.5 if not plugins else 0.3):
             s = gen.md_inline_plugins(rng)
         elif plugins and rng.random() < 0.5:
@@ -176,7 +180,8 @@ def firing_stats(side, kind, docs):
     saved = []
     for parser, core in ((md.block, BlockParser.SPECIFICATION), (md.inline, InlineParser.SPECIFICATION)):
         for name, fn in list(parser._methods.items()):
-            if name in core and not (name == "block_quote" and "spoiler" in side.plugins):      # spoiler rebinds `block_quote`
+            if name in core and not (name == "block_quote" and "spoiler" in side.plugins) \
+                    and not (name == "fenced_code" and side.directives == "fenced"):      # spoiler rebinds `block_quote`, FencedDirective `fenced_code`
                 continue
             def wrap(m, state, _fn=fn, _name=name):
                 cnt[_name + ":called"] += 1
@@ -187,7 +192,8 @@ def firing_stats(side, kind, docs):
             saved.append((parser, name, fn))
             parser._methods[name] = wrap
     types = ("table", "table_row", "footnote_ref", "footnotes", "footnote_item", "task_list_item", "def_list", "def_list_head", "def_list_item", "abbr",
-             "strikethrough", "mark", "insert", "superscript", "subscript", "inline_math", "block_math", "ruby", "inline_spoiler", "block_spoiler")
+             "strikethrough", "mark", "insert", "superscript", "subscript", "inline_math", "block_math", "ruby", "inline_spoiler", "block_spoiler",
+             "admonition", "admonition_title", "admonition_content", "block_image", "figure", "figcaption", "legend", "block_error", "toc", "include")
     def walk(toks):
         for t in toks:
             if t.get("type") in types:
@@ -242,7 +248,7 @@ def main():
     a = ap.parse_args()
     side = Side(a.cfg)
     rng = random.Random(a.seed)
-    docs = [eval(a.input)] if a.input else inputs(a.kind, rng, a.n, a.maxlen, () if a.gen == "stock" else side.plugins)
+    docs = [eval(a.input)] if a.input else inputs(a.kind, rng, a.n, a.maxlen, () if a.gen == "stock" else side.plugins, None if a.gen == "stock" else side.directives)
     if a.stats:
         print("firing counts (%s/%s, %d inputs): %s" % (a.kind, a.cfg, len(docs), firing_stats(side, a.kind, docs)))
     bad = compare(side, a.kind, docs)
